@@ -13,7 +13,6 @@ import (
 	"fmt"
 	"net/http"
 	"net/http/httptest"
-	"net/url"
 	"reflect"
 	"strings"
 	"testing"
@@ -93,31 +92,11 @@ func (c Case) faultName() string {
 
 // ---------------------------------------------------------------- real side
 
-func cloneH(h map[string][]string) http.Header {
-	out := http.Header{}
-	for k, v := range h {
-		if len(v) > 0 {
-			out[k] = append([]string{}, v...)
-		}
-	}
-	return out
-}
-
-func realRequest(m *tr.Req) *http.Request {
-	return &http.Request{
-		Method: m.Method,
-		URL:    &url.URL{Scheme: m.Scheme, Host: m.Host, Path: m.Path, RawQuery: m.Query},
-		Host:   m.HostH, Header: cloneH(m.Header), ContentLength: m.CL,
-		Proto: "HTTP/1.1", ProtoMajor: 1, ProtoMinor: 1, Body: http.NoBody,
-	}
-}
-
-func realResponse(m *tr.Res, req *http.Request) *http.Response {
-	return &http.Response{
-		StatusCode: m.Status, Header: cloneH(m.Header), ContentLength: m.CL, Request: req,
-		Proto: "HTTP/1.1", ProtoMajor: 1, ProtoMinor: 1, Body: http.NoBody,
-	}
-}
+var (
+	cloneH       = tr.CloneHTTPHeader
+	realRequest  = tr.RealRequest
+	realResponse = tr.RealResponse
+)
 
 func readRequest(r *http.Request, ctx *martian.Context) tr.Req {
 	return tr.Req{Method: r.Method, Scheme: r.URL.Scheme, Host: r.URL.Host, Path: r.URL.Path, Query: r.URL.RawQuery,
@@ -398,65 +377,17 @@ func classes(c Case) []string {
 // ---------------------------------------------------------------- generators
 
 var (
-	hdrNames     = []string{"X-A", "X-B", "x-a"}
-	vals         = []string{"1", "2"}
-	qNames       = []string{"p", "q"}
-	methods      = []string{"GET", "POST", "get"}
-	cookieNames  = []string{"c", "d"}
-	hosts        = []string{"example.com", "a.example.com", "b.example.com", "a.b.example.com", "other.org"}
-	hostPatterns = []string{"example.com", "a.example.com", "*.example.com", "*.*.example.com", "*.org", "a.*.com", "b.example.com"}
-	paths        = []string{"/", "/x", "/y"}
-	schemes      = []string{"http", "https"}
+	pick        = tr.Pick
+	uni         = tr.Uni
+	genScope    = tr.GenScope
+	hdrNames    = tr.HdrNames
+	vals        = tr.Vals
+	qNames      = tr.QNames
+	hosts       = tr.Hosts
+	paths       = tr.Paths
+	schemes     = tr.Schemes
+	cookieNames = tr.CookieNames
 )
-
-func pick(t *rapid.T, label string, xs []string) string { return xs[uni(t, label, len(xs))] }
-
-// uni draws an (almost) uniform integer in [0,n). rapid's integer generators
-// favour small values, which would starve the later alternatives of every
-// weighted choice below; single bits are unbiased.
-func uni(t *rapid.T, label string, n int) int {
-	v := 0
-	for i := 0; i < 10; i++ {
-		v <<= 1
-		if rapid.Bool().Draw(t, label) {
-			v |= 1
-		}
-	}
-	return v % n
-}
-
-// genScope draws one of: absent, [request], [response], both, [] - restricted
-// to what the type supports (an unsupported scope is a fault, injected separately).
-func genScope(t *rapid.T, n *tr.Node) {
-	k := uni(t, "scope", 16)
-	var sc []string
-	switch {
-	case k < 8:
-		return // absent
-	case k < 10:
-		sc = []string{"request"}
-	case k < 12:
-		sc = []string{"response"}
-	case k < 15:
-		sc = []string{"request", "response"}
-		if k == 14 {
-			sc = []string{"response", "request"}
-		}
-	default:
-		sc = []string{}
-	}
-	var ok []string
-	for _, s := range sc {
-		if tr.Supports(n.T, tr.Side(s)) {
-			ok = append(ok, s)
-		}
-	}
-	if len(ok) != len(sc) && len(ok) == 0 {
-		return // would be unsupported: leave absent
-	}
-	n.HasScope = true
-	n.Scope = append([]string{}, ok...)
-}
 
 type gen struct {
 	t        *rapid.T
@@ -536,44 +467,7 @@ func (g *gen) leaf() *tr.Node {
 func (g *gen) filter(depth int) *tr.Node {
 	t := g.t
 	n := &tr.Node{ID: g.id(), P: map[string]string{}}
-	switch uni(t, "fkind", 5) {
-	case 0:
-		n.T = tr.URLFilter
-		if rapid.Bool().Draw(t, "fscheme") {
-			n.P["scheme"] = pick(t, "scheme", schemes)
-		}
-		if rapid.Bool().Draw(t, "fhost") {
-			n.P["host"] = pick(t, "hostpat", hostPatterns)
-		}
-		if uni(t, "fpath", 3) == 0 {
-			n.P["path"] = pick(t, "path", paths)
-		}
-		if uni(t, "fquery", 4) == 0 {
-			n.P["query"] = pick(t, "qname", qNames) + "=" + pick(t, "qval", vals)
-		}
-	case 1:
-		n.T = tr.HeaderFilter
-		if uni(t, "special", 10) == 0 {
-			n.P["name"], n.P["value"] = "Content-Length", pick(t, "clv", []string{"7", "42"})
-		} else {
-			n.P["name"], n.P["value"] = pick(t, "hname", hdrNames), pick(t, "hval", vals)
-		}
-	case 2:
-		n.T = tr.QueryFilter
-		n.P["name"] = pick(t, "qname", qNames)
-		if rapid.Bool().Draw(t, "withval") {
-			n.P["value"] = pick(t, "qval", vals)
-		}
-	case 3:
-		n.T = tr.MethodFilter
-		n.P["method"] = pick(t, "method", methods)
-	case 4:
-		n.T = tr.CookieFilter
-		n.P["name"] = pick(t, "cname", cookieNames)
-		if rapid.Bool().Draw(t, "withval") {
-			n.P["value"] = pick(t, "cval", vals)
-		}
-	}
+	tr.GenFilterCond(t, n)
 	n.Then = g.node(depth + 1)
 	if uni(t, "else", 3) > 0 {
 		n.Else = g.node(depth + 1)
@@ -622,69 +516,9 @@ func (g *gen) node(depth int) *tr.Node {
 	}
 }
 
-func genValues(t *rapid.T, label string) []string {
-	switch uni(t, label, 6) {
-	case 0, 1:
-		return nil
-	case 2:
-		return []string{"1"}
-	case 3:
-		return []string{"2"}
-	case 4:
-		return []string{"1", "2"}
-	}
-	return []string{"2", "1"}
-}
-
-func genQuery(t *rapid.T) string {
-	var parts []string
-	for _, q := range []string{"p=1", "p=2", "q=1", "q=2"} {
-		if uni(t, "q:"+q, 3) == 0 {
-			parts = append(parts, q)
-		}
-	}
-	return strings.Join(parts, "&")
-}
-
 func genPair(t *rapid.T) Pair {
-	var p Pair
-	p.Req = tr.Req{
-		Method: pick(t, "method", methods), Scheme: pick(t, "scheme", schemes), Host: pick(t, "host", hosts),
-		Path: pick(t, "path", paths), Query: genQuery(t), Header: map[string][]string{},
-		CL: []int64{0, -1, 42}[uni(t, "cl", 3)],
-	}
-	if uni(t, "hostheader", 5) > 0 {
-		p.Req.HostH = p.Req.Host
-	}
-	for _, h := range []string{"X-A", "X-B"} {
-		if v := genValues(t, "req:"+h); v != nil {
-			p.Req.Header[h] = v
-		}
-	}
-	switch uni(t, "cookie", 5) {
-	case 1:
-		p.Req.Header["Cookie"] = []string{"c=1"}
-	case 2:
-		p.Req.Header["Cookie"] = []string{"c=2; d=1"}
-	case 3:
-		p.Req.Header["Cookie"] = []string{"d=2"}
-	}
-	p.Res = tr.Res{Status: []int{200, 404, 500}[uni(t, "status", 3)], Header: map[string][]string{},
-		CL: []int64{0, -1, 42}[uni(t, "rcl", 3)]}
-	for _, h := range []string{"X-A", "X-B"} {
-		if v := genValues(t, "res:"+h); v != nil {
-			p.Res.Header[h] = v
-		}
-	}
-	switch uni(t, "setcookie", 5) {
-	case 1:
-		p.Res.Header["Set-Cookie"] = []string{"c=1"}
-	case 2:
-		p.Res.Header["Set-Cookie"] = []string{"c=2", "d=1"}
-	case 3:
-		p.Res.Header["Set-Cookie"] = []string{"d=2; Path=/"}
-	}
-	return p
+	rq, rs := tr.GenPair(t)
+	return Pair{Req: rq, Res: rs}
 }
 
 // injectFault marks one node of the tree (or cuts the text) so that the
@@ -743,7 +577,7 @@ var propTree = &kit.Prop[Case]{
 	},
 }
 
-func TestTree(t *testing.T) { propTree.Check(t, kit.N(2000, 20000)) }
+func TestTree(t *testing.T) { propTree.Check(t, kit.N(6000, 40000)) }
 
 // ---------------------------------------------------------------- bounded exhaustive sub-space
 
@@ -943,6 +777,6 @@ var propHistory = &kit.Prop[History]{
 	Gates: map[string]float64{"eval-after-rejected-post": 0.25, "config-replaced": 0.25},
 }
 
-func TestReconfigure(t *testing.T) { propHistory.Check(t, kit.N(1500, 8000)) }
+func TestReconfigure(t *testing.T) { propHistory.Check(t, kit.N(3000, 16000)) }
 
 func TestReplay(t *testing.T) { kit.Replay(t, propTree, propEnum, propHistory) }
